@@ -30,34 +30,41 @@ pub struct Case {
 	pub worlds: Vec<(usize, Vec<usize>)>,
 }
 
-pub fn fixed_effect(g: &mut G, depth: usize) -> EffectSpec {
+/// A built-in effect at fixed parameters. The scene must be a *stable* system, or a rounding
+/// difference of one ulp grows without bound and no tolerance means anything: corner frequencies stay
+/// below 0.45 x `sample_rate`, and an effect nested in a delay's feedback loop (`depth` 1) never adds
+/// gain (the loop gain stays below unity).
+pub fn fixed_effect(g: &mut G, depth: usize, sample_rate: u32) -> EffectSpec {
 	let rng = &mut *g.rng;
+	let nested = depth > 0;
+	let top = 0.45 * sample_rate as f64;
 	match rng.below(8) {
 		0 => EffectSpec::Filter {
 			mode: *rng.pick(&[FilterModeS::LowPass, FilterModeS::BandPass, FilterModeS::HighPass, FilterModeS::Notch]),
-			cutoff: Val::Fixed(rng.frange(50.0, 15_000.0)),
-			resonance: Val::Fixed(rng.frange(0.0, 0.9)),
+			cutoff: Val::Fixed(rng.frange(50.0, 15_000.0).min(top)),
+			resonance: Val::Fixed(rng.frange(0.0, if nested { 0.3 } else { 0.9 })),
 			mix: Val::Fixed(MixS(rng.f64() as f32)),
 		},
 		1 => EffectSpec::Eq {
 			kind: *rng.pick(&[EqKindS::Bell, EqKindS::LowShelf, EqKindS::HighShelf]),
-			frequency: Val::Fixed(rng.frange(50.0, 10_000.0)),
-			gain: Val::Fixed(Db(rng.frange(-12.0, 12.0) as f32)),
+			frequency: Val::Fixed(rng.frange(50.0, 10_000.0).min(top)),
+			gain: Val::Fixed(Db(rng.frange(-12.0, if nested { 0.0 } else { 12.0 }) as f32)),
 			q: Val::Fixed(rng.frange(0.3, 4.0)),
 		},
 		2 => {
-			let feedback_effects = if depth == 0 && rng.chance(0.3) { vec![fixed_effect(g, 1)] } else { vec![] };
+			let feedback_effects = if depth == 0 && rng.chance(0.3) { vec![fixed_effect(g, 1, sample_rate)] } else { vec![] };
 			let rng = &mut *g.rng;
+			let max_feedback = if feedback_effects.is_empty() { -1.0 } else { -6.0 };
 			EffectSpec::Delay {
 				// from below one internal buffer to several
 				time: *rng.pick(&[0.0001, 0.0005, 0.002, 0.01, 0.05]),
-				feedback: Val::Fixed(Db(rng.frange(-30.0, -1.0) as f32)),
+				feedback: Val::Fixed(Db(rng.frange(-30.0, max_feedback) as f32)),
 				mix: Val::Fixed(MixS(rng.f64() as f32)),
 				feedback_effects,
 			}
 		}
 		3 => EffectSpec::Reverb {
-			feedback: Val::Fixed(rng.frange(0.0, 0.95)),
+			feedback: Val::Fixed(rng.frange(0.0, if nested { 0.2 } else { 0.95 })),
 			damping: Val::Fixed(rng.f64()),
 			stereo_width: Val::Fixed(rng.f64()),
 			mix: Val::Fixed(MixS(rng.f64() as f32)),
@@ -67,22 +74,22 @@ pub fn fixed_effect(g: &mut G, depth: usize) -> EffectSpec {
 			ratio: Val::Fixed(rng.frange(1.0, 10.0)),
 			attack: Val::Fixed(Secs(rng.frange(0.0005, 0.05))),
 			release: Val::Fixed(Secs(rng.frange(0.001, 0.2))),
-			makeup: Val::Fixed(Db(rng.frange(-6.0, 6.0) as f32)),
+			makeup: Val::Fixed(Db(rng.frange(-6.0, if nested { 0.0 } else { 6.0 }) as f32)),
 			mix: Val::Fixed(MixS(rng.f64() as f32)),
 		},
 		5 => EffectSpec::Distortion {
 			kind: *rng.pick(&[DistKindS::HardClip, DistKindS::SoftClip]),
-			drive: Val::Fixed(Db(rng.frange(-12.0, 24.0) as f32)),
+			drive: Val::Fixed(Db(rng.frange(-12.0, if nested { 0.0 } else { 24.0 }) as f32)),
 			mix: Val::Fixed(MixS(rng.f64() as f32)),
 		},
-		6 => EffectSpec::Volume(Val::Fixed(Db(rng.frange(-20.0, 6.0) as f32))),
+		6 => EffectSpec::Volume(Val::Fixed(Db(rng.frange(-20.0, if nested { 0.0 } else { 6.0 }) as f32))),
 		_ => EffectSpec::Panning(Val::Fixed(Pan(rng.frange(-1.0, 1.0) as f32))),
 	}
 }
 
-fn fixed_effects(g: &mut G, max: usize) -> Vec<EffectSpec> {
+fn fixed_effects(g: &mut G, max: usize, sample_rate: u32) -> Vec<EffectSpec> {
 	let n = if g.rng.chance(0.35) { 0 } else { g.rng.urange(1, max) };
-	(0..n).map(|_| fixed_effect(g, 0)).collect()
+	(0..n).map(|_| fixed_effect(g, 0, sample_rate)).collect()
 }
 
 fn has_recursive(effects: &[EffectSpec]) -> bool {
@@ -101,7 +108,7 @@ fn gen_case(seed: u64, tier: Tier) -> Case {
 		internal_buffer_size: 128,
 		caps: CapsSpec::default(),
 		main_volume: Val::Fixed(Db(g.rng.frange(-12.0, 3.0) as f32)),
-		main_effects: fixed_effects(&mut g, 2),
+		main_effects: fixed_effects(&mut g, 2, sample_rate),
 		main_sound_capacity: 16,
 	};
 	let mut setup = Vec::new();
@@ -109,7 +116,7 @@ fn gen_case(seed: u64, tier: Tier) -> Case {
 	for _ in 0..n_sends {
 		setup.push(Op::AddSend {
 			volume: Val::Fixed(Db(g.rng.frange(-12.0, 3.0) as f32)),
-			effects: fixed_effects(&mut g, 2),
+			effects: fixed_effects(&mut g, 2, sample_rate),
 		});
 	}
 	let spatial = g.rng.chance(0.25);
@@ -129,7 +136,7 @@ fn gen_case(seed: u64, tier: Tier) -> Case {
 		}
 		let spec = TrackSpec {
 			volume: Val::Fixed(Db(g.rng.frange(-12.0, 3.0) as f32)),
-			effects: fixed_effects(&mut g, 3),
+			effects: fixed_effects(&mut g, 3, sample_rate),
 			sound_capacity: 8,
 			sub_track_capacity: 4,
 			sends,
